@@ -62,6 +62,8 @@ func TestRaceStress(t *testing.T) {
 			raceEnroll(t, rng)
 		case "C05":
 			raceServerCerts(t, rng)
+		case "C06":
+			raceTokens(t, rng)
 		default:
 			t.Fatalf("no race stress for %s", prop)
 		}
@@ -710,7 +712,25 @@ func raceServerCerts(t *testing.T, rng *mathrand.Rand) {
 				if kind == 3 {
 					req.NonceSignature[r2.Intn(len(req.NonceSignature))] ^= 1 << uint(r2.Intn(8))
 				}
+				// a forged twin of an honest request - same claimed key and nonce, damaged nonce signature, a client state of the
+				// forger's choosing - sent at the same moment: it must be refused however the two calls overlap
+				var twin sync.WaitGroup
+				if kind == 0 && r2.Intn(2) == 0 {
+					fs, _ := structpb.NewStruct(map[string]any{"forged": true})
+					fsb, _ := proto.Marshal(fs)
+					freq := &types.GenerateServerCertificatesRequest{CertificatePublicKeyPkix: me.Pkix, Nonce: nonce, ClientState: fsb,
+						NonceSignature: append([]byte(nil), req.NonceSignature...), ClientStateSignature: ed25519.Sign(other.Priv, fsb)}
+					freq.NonceSignature[r2.Intn(len(freq.NonceSignature))] ^= 1 << uint(r2.Intn(8))
+					twin.Add(1)
+					go func() {
+						defer twin.Done()
+						if fresp, ferr := nodetls.GenerateServerCertificates(ctx, st, freq); ferr == nil {
+							bad("a forged twin (same key and nonce as an honest request in flight, damaged signature) was served: bundles=%d state=%v", len(fresp.GetCertificateBundles()), fresp.GetClientState())
+						}
+					}()
+				}
 				resp, err := nodetls.GenerateServerCertificates(ctx, st, req)
+				twin.Wait()
 				if kind != 0 {
 					if err == nil {
 						bad("certificates minted under parallel use for a request of kind %d (1 nonce signed by another node, 2 state signed by another node, 3 damaged signature)", kind)
@@ -742,6 +762,82 @@ func raceServerCerts(t *testing.T, rng *mathrand.Rand) {
 					if !found {
 						bad("the minted leaf does not carry this request's nonce")
 					}
+				}
+			}
+		}()
+	}
+	close(start)
+	wg.Wait()
+}
+
+// raceTokens (C06, auxiliary): many activation tokens are created and used at the same time against one server storage,
+// each token by its own goroutine only (concurrent use of ONE token is outside the statement). Facts that load cannot
+// disturb: the first use of a live token enrolls the presenting node, whose record carries that token's state and no
+// other's; the token's entry is gone afterwards and a second node presenting it is refused and gets no record.
+func raceTokens(t *testing.T, rng *mathrand.Rand) {
+	ctx := context.Background()
+	st, _ := inmem.New(ctx)
+	if _, err := rotation.RotateRootCertificates(ctx, st); err != nil {
+		t.Fatal(err)
+	}
+	bad := func(format string, a ...any) {
+		fmt.Printf("TOKEN-VIOLATION "+format+"\n", a...)
+		t.Fail()
+	}
+	var wg sync.WaitGroup
+	start := make(chan struct{})
+	n := 8 + rng.Intn(16)
+	for g := 0; g < n; g++ {
+		wg.Add(1)
+		g := g
+		go func() {
+			defer wg.Done()
+			<-start
+			for j := 0; j < 4; j++ {
+				s, _ := structpb.NewStruct(map[string]any{"g": float64(g), "j": float64(j)})
+				tokenId, tok, err := registration.CreateServerLedActivationToken(ctx, st, &types.ServerLedRegistrationRequest{}, nodeenrollment.WithState(s))
+				if err != nil {
+					bad("creating a token failed while others were created and used: %v", err)
+					return
+				}
+				use := func() (*types.NodeCredentials, string, error) {
+					ns, _ := inmem.New(ctx)
+					c, err := types.NewNodeCredentials(ctx, ns, nodeenrollment.WithActivationToken(tok))
+					if err != nil {
+						return nil, "", err
+					}
+					kid := keyIDSlow(c.CertificatePublicKeyPkix)
+					req, err := c.CreateFetchNodeCredentialsRequest(ctx)
+					if err != nil {
+						return nil, kid, err
+					}
+					resp, err := registration.FetchNodeCredentials(ctx, st, req)
+					if err != nil {
+						return nil, kid, err
+					}
+					c2, err := c.HandleFetchNodeCredentialsResponse(ctx, ns, resp)
+					return c2, kid, err
+				}
+				c2, kid, err := use()
+				if err != nil || c2 == nil || len(c2.CertificateBundles) == 0 {
+					bad("the first use of a live token did not enroll the node: %v", err)
+					return
+				}
+				ni, err := types.LoadNodeInformation(ctx, st, kid)
+				if err != nil {
+					bad("no record under the enrolled node's key ID: %v", err)
+					return
+				}
+				if !proto.Equal(ni.State, s) {
+					bad("the node enrolled with token (%d,%d) carries state %v", g, j, ni.State)
+				}
+				if _, err := types.LoadServerLedActivationToken(ctx, st, tokenId); err == nil {
+					bad("the token's entry is still there after its use")
+				}
+				if c3, kid3, err := use(); err == nil && c3 != nil && len(c3.CertificateBundles) > 0 {
+					bad("a used token enrolled a second node")
+				} else if _, lerr := types.LoadNodeInformation(ctx, st, kid3); lerr == nil && kid3 != "" {
+					bad("a second presentation of a used token left a node record")
 				}
 			}
 		}()
